@@ -22,6 +22,13 @@ def opAe (a : List String) : String :=
       let nonce := (sha3_512 seed).take 12
       s!"emit:!some:{amount} ae dec {hx key} {hx (AuthEnc.encryptAmount aesPrims key nonce amount)}"
     | _, _, _ => "bad-op"
+  | ["mencrypt", key, amount, nonce] =>
+    -- the model as an independent encryptor with a chosen nonce (the SDK draws its nonce at random)
+    match ofHex key, amount.toNat?, ofHex nonce with
+    | some key, some amount, some nonce =>
+      if key.length ≠ 16 ∨ nonce.length ≠ 12 ∨ amount ≥ 2^64 then "bad-op" else
+      s!"emit:!some:{amount} ae dec {hx key} {hx (AuthEnc.encryptAmount aesPrims key nonce amount)}"
+    | _, _, _ => "bad-op"
   | ["dec", key, ct] =>
     match ofHex key, ofHex ct with
     | some key, some ct =>
